@@ -99,6 +99,10 @@ class SymbolCounter:
         self._counts = defaultdict(int)
 
     def previsit(self, node):
+        # A shadowing "let" reads the outer binding (in order to restore it).
+        if getattr(node, 'is_shadowing', False) and not self.is_bound(node.name):
+            self.freevars.add(node.name)
+
         if node.defines_local:
             self._counts[node.name] += 1
 
